@@ -10,14 +10,18 @@ CONSTANTS
   ShapeNames <- ShapeNamesFull
   ShapeVals <- ShapeValsSmall
   ShapeDepth = 1
-  DocAlpha = {"a", "b", "n", "nl", "{", "}", "on", "off", "=", "]"}
-  DocLen = 4
+  DocAlpha = {"a", "b", "nl", "{", "}", "on", "off", "=", "]"}
+  DocAlphaNL = {"a", "n", "nl", "{", "}"}
+  DocLen = 5
+  LexAlpha = {}
+  LexLen = 0
 INVARIANT RoundTrip
 INVARIANT WhitespaceOnly
 INVARIANT TokenShape
 INVARIANT RawBlockNames
 INVARIANT LinesIncrease
 INVARIANT DocLexes
+INVARIANT LexShape
 INVARIANT Terminates
 INVARIANT ParseAgrees
 INVARIANT StackOK
